@@ -3,7 +3,7 @@
    stored (token, payload) objects in token order; a listing starts two look-back periods (20 min)
    before the time of the given token and returns at most max (at most 1000) entries. *)
 From Coq Require Import List NArith Bool Arith String.
-From DM Require Import Base.Util.
+From DM Require Import Base.Util Gen.Consts.
 Import ListNotations.
 Open Scope N_scope.
 
@@ -23,10 +23,10 @@ Fixpoint append_entry (tok : N) (p : string) (l : log) : log :=
       else (t, q) :: append_entry tok p rest
   end.
 
-Definition lookback : N := 1200.       (* twice the ten-minute expiration *)
+Definition lookback : N := N.of_nat (2 * walExpirationSeconds).       (* twice the expiration (Gen/Consts.v, from pkg/wal) *)
 Definition list_start (from : N) : N := (time_of from - lookback) * two128.   (* truncated subtraction: times before the window start at 0 *)
 
 Definition list_entries (from : N) (max : nat) (l : log) : log :=
-  firstn (Nat.min max 1000) (filter (fun e => list_start from <=? fst e) l).
+  firstn (Nat.min max walMaxEntriesPerList) (filter (fun e => list_start from <=? fst e) l).
 
 Definition add_all (es : list (N * string)) : log := fold_left (fun l e => append_entry (fst e) (snd e) l) es [].
